@@ -127,6 +127,9 @@ class BaseProtocol(asyncio.Protocol):
                 ConnectionError("Connection lost"),
                 exc,
             )
+            # The senders wait shielded: one that was cancelled has left the
+            # waiter behind, which is not an exception nobody retrieved.
+            waiter.exception()
 
     async def _drain_helper(self) -> None:
         if self.transport is None:
